@@ -42,11 +42,13 @@ func c07(r *core.Run) {
 	p := r.Prog
 	r.Explanation = "Static rules over the writers of the plan record (StoragePaymentInfo) and the removers of stored files: every function that deletes a file record from the primary index also, on the plan-paid branch (Expires==0), writes the owner's plan record with SpaceUsed decreased by a value depending on the file's size and replication; the charge in storage.MsgPostFile lies behind plan found, plan not expired and SpaceUsed' <= SpaceAvailable, is never performed on the pay-once branch, and is performed on every committing path of the plan-paid branch with a value depending on the loaded usage and the message's size and replication; the footprint operands are validated non-negative at the door; a plan purchase carries the loaded usage over and refuses plans smaller than it. These are the per-transition causes; the history-level equality usage = Σ footprints is not decided."
 	r.Assumptions = []string{T1, T4}
-	r.NotDecided = []string{"the history-level equality usage = Σ live footprints (needs induction over histories)", "re-posting the same (merkle, owner, start) key within one block charges twice"}
+	r.NotDecided = []string{"the history-level equality usage = Σ live footprints (needs induction over histories)", "accounting of files that enter the state through genesis import"}
 	r.Rule("C07/R1", "removal returns the footprint: each function deleting a FilesByMerkle record writes StoragePaymentInfo of the file's owner with SpaceUsed := SpaceUsed − f(FileSize, MaxProofs) behind Expires==0, on every path that deletes")
 	r.Rule("C07/R2", "charge is guarded: the plan write of storage.MsgPostFile is on committing paths only behind Found(plan)=true, Before(End, now)=false and the space comparison in its wrap-free form Cmp(footprint <= SpaceAvailable - SpaceUsed); the pay-once branch (msg.Expires>0) never writes the plan")
 	r.Rule("C07/R3", "footprint operands validated: MsgPostFile.ValidateBasic rejects FileSize and MaxProofs below 1 (and an overflowing product); the wasm entry calls ValidateBasic (C11/R4)")
 	r.Rule("C07/R4", "plan change keeps usage: in storage.MsgBuyStorage the new record's SpaceUsed ⊵ the loaded record's SpaceUsed only; when a plan is found committing paths pass Cmp(SpaceUsed <= msg.Bytes)")
+	r.Rule("C07/R6", "one notion of 'paid from the plan': for every sign class of Expires (negative / zero / positive — the field is only ever compared with constants) that MsgPostFile.ValidateBasic accepts, posting charges the plan exactly when removal refunds it")
+	r.Rule("C07/R7", "a file record is created only where none exists under its key (merkle, owner, start height): the write of storage.MsgPostFile is behind Found(file under the written key)=false, so one live record is never charged to the plan twice")
 	r.Rule("C07/R5", "the charge happens: every committing path of the plan-paid branch writes the signer's plan record with SpaceUsed ⊵ {loaded SpaceUsed, msg.FileSize, msg.MaxProofs}")
 	hs, err := p.Handlers()
 	if err != nil {
@@ -56,6 +58,7 @@ func c07(r *core.Run) {
 	reach, _ := p.TxReachable()
 	// ---- R1
 	nRem := 0
+	var removers []c07Remover
 	for _, fn := range core.SortedFuncs(reach) {
 		var del *core.Effect
 		for _, e := range p.Effects(fn) {
@@ -100,6 +103,7 @@ func c07(r *core.Run) {
 			r.Violation("C07/R1", construct, p.InstrPos(del.Instr), "a stored file is removed without returning its footprint to the owner's plan: the plan's used space only ever grows (post a plan-paid file, delete it, the space is still reported used)")
 			continue
 		}
+		removers = append(removers, c07Remover{fn, unit, planCall, hop})
 		res := func(pr core.Prov) core.Prov {
 			if unit == fn {
 				return pr
@@ -120,6 +124,11 @@ func c07(r *core.Run) {
 				for i := 0; i < len(leaves); i++ {
 					if mc, ok := leaves[i].(*ssa.Call); ok {
 						if b, isB := mc.Call.Value.(*ssa.Builtin); isB && (b.Name() == "max" || b.Name() == "min") {
+							for _, a := range mc.Call.Args {
+								phiLeaves(a, map[ssa.Value]bool{}, &leaves)
+							}
+						} else if isSelectHelper(p, mc) {
+							// ... or with a helper that returns one of its arguments (atLeast(v, floor))
 							for _, a := range mc.Call.Args {
 								phiLeaves(a, map[ssa.Value]bool{}, &leaves)
 							}
@@ -152,15 +161,9 @@ func c07(r *core.Run) {
 			if ca.Kind == "found" && !truth && p.ProvAt(ca.X, "", ca.If).HasStore(stPay, "#found") {
 				return true
 			}
-			if ca.Kind == "eq" {
-				px, py := res(p.ProvAt(ca.X, "", ca.If)), res(p.ProvAt(ca.Y, "", ca.If))
-				exp := func(pr core.Prov) bool { return pr.HasStore(stFiles, ".Expires") }
-				zero := func(pr core.Prov) bool {
-					return pr.Any(func(a core.Atom) bool { return a.Kind == "const" && a.Name == "0" }) && len(pr.DataAtoms()) == 0
-				}
-				if (exp(px) && zero(py)) || (exp(py) && zero(px)) {
-					return !truth
-				}
+			// ... or an edge a plan-paid file (Expires zero) cannot take, however the comparison is spelled
+			if signExcludes(p, func(v ssa.Value, at ssa.Instruction) bool { return res(p.ProvAt(v, "", at)).HasStore(stFiles, ".Expires") }, signZero)(ca, truth) {
+				return true
 			}
 			return false
 		})
@@ -217,7 +220,8 @@ func c07(r *core.Run) {
 			}, "Cmp(footprint <= SpaceAvailable - SpaceUsed)")
 		}
 		guardRow(r, "C07/R2", h, "not-on-pay-once-branch", filter, func(*ssa.Function) core.GuardMatch {
-			return cmpGuard(p, msgField(p, h, "Expires"), func(pr core.Prov) bool { return len(pr.DataAtoms()) == 0 }, "<=", "<")
+			// an edge a pay-once file (positive Expires) cannot take, however the comparison is spelled
+			return signExcludes(p, func(v ssa.Value, at ssa.Instruction) bool { return p.HasMsgField(p.ProvAt(v, "", at), h, "Expires") }, signPos)
 		}, "Cmp(msg.Expires > 0)=false")
 		// R5
 		planUnit, planCall := findOpSite(p, h, "Set", stPay)
@@ -233,7 +237,8 @@ func c07(r *core.Run) {
 					}
 				}
 			}
-			payOnce := p.PassEdges(h.Fn, cmpGuard(p, msgField(p, h, "Expires"), func(pr core.Prov) bool { return len(pr.DataAtoms()) == 0 }, ">", ">="))
+			// edges a plan-paid file (Expires zero) cannot take
+			payOnce := p.PassEdges(h.Fn, signExcludes(p, func(v ssa.Value, at ssa.Instruction) bool { return p.HasMsgField(p.ProvAt(v, "", at), h, "Expires") }, signZero))
 			ret := p.BypassExistsAvoiding(h.Fn, h.Fn.Blocks[0].Instrs[0], topCall, false, payOnce)
 			if ret == nil && planUnit != h.Fn {
 				ret = p.BypassExists(planUnit, planUnit.Blocks[0].Instrs[0], planCall, false)
@@ -321,6 +326,7 @@ func c07(r *core.Run) {
 		r.Check(productOverflowGuarded(p, vb, "FileSize", "MaxProofs"), "C07/R3", "postfile:product-overflow-checked", p.Pos(vb.Pos()), "ValidateBasic rejects FileSize > MaxInt64/MaxProofs", "MsgPostFile.ValidateBasic does not reject an overflowing FileSize*MaxProofs by the division form (a sign test of the wrapped product misses products that wrap past 2^64): the plan is charged the wrapped footprint")
 	}
 	wasmDoorValidated(r, "C07/R3", hs, "storage.MsgPostFile")
+	c07PlanClass(r, hs, removers)
 	// ---- R4 BuyStorage
 	if h := core.HandlerByKey(hs, "storage.MsgBuyStorage"); h == nil {
 		r.Undecided("C07/R4", "storage.MsgBuyStorage:anchor-missing", "", "handler missing")
@@ -465,4 +471,214 @@ func fieldLowerBounded(p *core.Program, fn *ssa.Function, field string) bool {
 		}
 	}
 	return false
+}
+
+// isSelectHelper: the callee is a side-effect-free custom function every return of which is one of its own parameters
+// or a constant (a clamp / min / max written out).
+func isSelectHelper(p *core.Program, call *ssa.Call) bool {
+	cs := p.Callees(call)
+	if len(cs) != 1 || cs[0].Blocks == nil || call.Call.IsInvoke() {
+		return false
+	}
+	fn := cs[0]
+	n := 0
+	for _, b := range fn.Blocks {
+		for _, in := range b.Instrs {
+			switch x := in.(type) {
+			case ssa.CallInstruction:
+				if _, isB := x.Common().Value.(*ssa.Builtin); !isB {
+					return false
+				}
+			case *ssa.Store, *ssa.MapUpdate, *ssa.Send, *ssa.Go, *ssa.Defer:
+				return false
+			case *ssa.Return:
+				n++
+				for _, rv := range x.Results {
+					var leaves []ssa.Value
+					phiLeaves(rv, map[ssa.Value]bool{}, &leaves)
+					for _, lf := range leaves {
+						switch lf.(type) {
+						case *ssa.Parameter, *ssa.Const:
+						default:
+							return false
+						}
+					}
+				}
+			}
+		}
+	}
+	return n > 0
+}
+
+type c07Remover struct {
+	fn, unit      *ssa.Function
+	planCall, hop ssa.CallInstruction
+}
+
+// c07PlanClass: R6 (charge and refund agree on which files are plan-paid) and R7 (a post never overwrites a record).
+func c07PlanClass(r *core.Run, hs []*core.Handler, removers []c07Remover) {
+	p := r.Prog
+	h := core.HandlerByKey(hs, "storage.MsgPostFile")
+	vb := p.FuncByName("x/storage/types", "MsgPostFile", "ValidateBasic")
+	if h == nil || vb == nil {
+		r.Undecided("C07/R6", "storage.MsgPostFile:anchor-missing", "", "handler or ValidateBasic missing")
+		return
+	}
+	// the unit of the handler that writes the plan record, and the one that writes the file record
+	var chargeUnit, fileUnit *ssa.Function
+	var chargeCall, fileCall ssa.CallInstruction
+	for _, fn := range p.Summary(h.Fn).Funcs {
+		if isAccessorFn(p, fn) {
+			continue
+		}
+		for _, e := range p.Effects(fn) {
+			c, ok := e.Instr.(ssa.CallInstruction)
+			if !ok || e.Direct {
+				continue
+			}
+			if performsDirectly(p, fn, e, "Set", stPay) {
+				chargeUnit, chargeCall = fn, c
+			}
+			if effHas(e, "Set", stFiles) && !effHas(e, "Delete", stFiles) {
+				direct := false
+				for _, cal := range e.Callees {
+					if isAccessorFn(p, cal) {
+						direct = true
+					}
+					// the record setter writing both indexes through its two accessors
+					for _, e2 := range p.Effects(cal) {
+						if performsDirectly(p, cal, e2, "Set", stFiles) {
+							direct = true
+						}
+					}
+				}
+				if direct {
+					fileUnit, fileCall = fn, c
+				}
+			}
+		}
+	}
+	// ---- R6
+	if chargeCall == nil {
+		r.Undecided("C07/R6", h.Key()+":plan-paid-classes", p.Pos(h.Fn.Pos()), "no plan write in the handler")
+	} else {
+		postField := func(v ssa.Value, at ssa.Instruction) bool {
+			return p.OnlyMsgField(p.ProvAt(v, "", at), h, "Expires")
+		}
+		vbField := func(v ssa.Value, at ssa.Instruction) bool {
+			atoms := p.ProvAt(v, "", at).DataAtoms()
+			return len(atoms) == 1 && atoms[0].Kind == "param" && atoms[0].Fn == vb && atoms[0].Path == ".Expires"
+		}
+		var curRemover *ssa.Function
+		fileField := func(v ssa.Value, at ssa.Instruction) bool {
+			pr := p.ProvAt(v, "", at)
+			return onlyStoreField(stFiles, ".Expires")(pr) || (curRemover != nil && onlyStoreField(stFiles, ".Expires")(p.ResolveToEntry(pr, curRemover)))
+		}
+		reachesFrom := func(fn *ssa.Function, removed map[core.Edge]bool, at ssa.Instruction) bool {
+			return core.PathExists(fn, removed, at, nil)
+		}
+		// through the call chain handler -> ... -> chargeUnit: judged in the unit and, if it is a helper, in the handler
+		chargeUnder := func(s signClass) (bool, int) {
+			rm, n := signInfeasible(p, chargeUnit, postField, s)
+			ok := reachesFrom(chargeUnit, rm, chargeCall)
+			if chargeUnit != h.Fn {
+				rm2, n2 := signInfeasible(p, h.Fn, postField, s)
+				n += n2
+				hopOK := false
+				allInstrs(h.Fn, func(in ssa.Instruction) {
+					if c, isCall := in.(ssa.CallInstruction); isCall {
+						for _, cal := range p.Callees(c) {
+							if cal == chargeUnit && reachesFrom(h.Fn, rm2, in) {
+								hopOK = true
+							}
+						}
+					}
+				})
+				ok = ok && hopOK
+			}
+			return ok, n
+		}
+		acceptedUnder := func(s signClass) bool {
+			rm, _ := signInfeasible(p, vb, vbField, s)
+			for _, ri := range p.Returns(vb) {
+				if ri.Class == core.RetFail {
+					continue
+				}
+				if core.PathExists(vb, rm, vb.Blocks[0].Instrs[0], ri.Ret) {
+					return true
+				}
+			}
+			return false
+		}
+		for _, rmv := range removers {
+			curRemover = rmv.fn
+			for _, s := range []signClass{signNeg, signZero, signPos} {
+				construct := core.FnName(rmv.fn) + ":plan-paid-class:Expires-" + s.String()
+				if !acceptedUnder(s) {
+					r.Ok("C07/R6", construct, p.Pos(vb.Pos()), "ValidateBasic rejects a "+s.String()+" Expires")
+					continue
+				}
+				charged, nPost := chargeUnder(s)
+				rm, nRem := signInfeasible(p, rmv.unit, fileField, s)
+				refunded := reachesFrom(rmv.unit, rm, rmv.planCall)
+				if rmv.hop != nil {
+					rm2, n2 := signInfeasible(p, rmv.fn, fileField, s)
+					nRem += n2
+					refunded = refunded && reachesFrom(rmv.fn, rm2, rmv.hop)
+				} else if rmv.unit != rmv.fn {
+					rm2, n2 := signInfeasible(p, rmv.fn, fileField, s)
+					nRem += n2
+					_ = rm2
+				}
+				r.Check(charged == refunded, "C07/R6", construct, p.InstrPos(rmv.planCall),
+					fmt.Sprintf("Expires %s: charged on post=%v, refunded on removal=%v (%d + %d comparisons of Expires with constants)", s, charged, refunded, nPost, nRem),
+					fmt.Sprintf("a file posted with a %s Expires is accepted by ValidateBasic; posting it charges the plan=%v but removing it refunds the plan=%v: the plan's usage no longer equals the footprint of the live plan-paid files (post such a file, delete it, the space stays used)", s, charged, refunded))
+			}
+		}
+		if len(removers) == 0 {
+			r.Undecided("C07/R6", h.Key()+":plan-paid-classes", "", "no remover of file records found")
+		}
+	}
+	// ---- R7
+	if fileCall == nil {
+		r.Undecided("C07/R7", h.Key()+":file-write", p.Pos(h.Fn.Pos()), "no write of a file record in the handler")
+		return
+	}
+	var getter *ssa.Call
+	absent := func(ca *core.CondAtom, truth bool) bool {
+		if ca.Kind != "found" || truth || ca.Call == nil {
+			return false
+		}
+		for _, cal := range p.Callees(ca.Call) {
+			if gi := p.StoreGetter(cal); gi != nil && gi.Module+"/"+gi.Prefix == stFiles {
+				getter = ca.Call
+				return true
+			}
+		}
+		return false
+	}
+	guarded := guardedHereOrAtCallSites(p, fileUnit, fileCall, absent)
+	r.Check(guarded, "C07/R7", h.Key()+":create-only-if-absent", p.InstrPos(fileCall), "the file record is written only behind Found(file)=false",
+		"a post overwrites whatever file record exists under the same (merkle, owner, start height): two posts of one file in one block leave one live record (with an emptied prover list) while the plan is charged twice — usage exceeds the footprint of the live files and deleting the file returns only one of the charges")
+	if guarded && getter != nil {
+		args := dataArgs(fileCall)
+		al := recordAlloc(args[len(args)-1])
+		tb := core.NewTermBuilder(p)
+		var want, got []string
+		if al != nil {
+			for _, f := range []string{"Merkle", "Owner", "Start"} {
+				t := "?"
+				for _, st := range fieldStores(al, f) {
+					t = tb.Term(st.Val)
+				}
+				want = append(want, t)
+			}
+		}
+		for _, a := range dataArgs(getter) {
+			got = append(got, tb.Term(a))
+		}
+		r.Check(al != nil && strings.Join(want, " / ") == strings.Join(got, " / "), "C07/R7", h.Key()+":absent-check-key=written-key", p.InstrPos(getter),
+			"existence tested under the key written: "+strings.Join(want, " / "),
+			fmt.Sprintf("the existence test looks under %v but the record is written under %v", got, want))
+	}
 }
